@@ -5,3 +5,4 @@ import Bp7.Props.C12
 #print axioms Bp7.C12.status_bundle_spec
 #print axioms Bp7.C12.readReport_enc
 #print axioms Bp7.C12.readItems_enc
+#print axioms Bp7.C12.admin_unknown_eq_spec
